@@ -62,6 +62,13 @@ pub fn cfgs_for(level: &str, seed: u64) -> Vec<RunCfg> {
         "slicesr" => slice_cfgs(seed, false),
         "gc" => gc_cfgs(seed, false),
         "gcall" => gc_cfgs(seed, true),
+        // big live data: fewer forced collections (each one traverses more than a heap chunk)
+        "gcbig" => vec![
+            RunCfg::plain(),
+            RunCfg { name: "gc5".into(), sched: Sched::Every(5), budgets: None, prefix: false, live: false },
+            RunCfg { name: "gc64".into(), sched: Sched::Every(64), budgets: None, prefix: false, live: false },
+            RunCfg { name: "gcr1".into(), sched: Sched::Random(seed * 2 + 1, 64), budgets: None, prefix: false, live: false },
+        ],
         other => standard_cfgs(other),
     }
 }
@@ -220,6 +227,10 @@ fn one_session(kind: &str, m: &HashMap<String, String>, seed: u64, i: usize, lev
             }
             "cont" => {
                 let (forms, tags) = crate::gen_cont::session(&mut crate::rng::Rng::new(sseed));
+                (forms, tags, vec![])
+            }
+            "biglive" => {
+                let (forms, tags) = crate::gen_alloc::big_session(&mut crate::rng::Rng::new(sseed));
                 (forms, tags, vec![])
             }
             "alloc" => {
